@@ -14,11 +14,13 @@ def pack_cases(tier, seed):
     for path in ("gossip", "piggy"):
         for buf in bufs:
             for lab in (0, 1, 255):
-                for enc, vout in (("none", True), ("v1", True), ("v0", True), ("v1", False)):
+                # (encryption, sender seals, sender verifies incoming): the last two settings are independent
+                for enc, vout, vin in (("none", True, True), ("v1", True, True), ("v0", True, True), ("v1", False, False),
+                                       ("v1", True, False), ("v0", True, False)):
                     for crc in (False, True):
                         if lab == 255 and buf < 512:
                             continue
-                        base = dict(path=path, buf=buf, labelLen=lab, enc=enc, vout=vout, crc=crc, comp=False)
+                        base = dict(path=path, buf=buf, labelLen=lab, enc=enc, vout=vout, vin=vin, crc=crc, comp=False)
                         cases.append(dict(base, member=[], user=[], fillUser=True))            # one message filling the budget
                         cases.append(dict(base, member=[10, 10, 40], user=[], fillUser=True))  # members + filler
                         cases.append(dict(base, member=[], user=[1] * (400 if buf < 9000 else 1500), fillUser=False))  # > 255 tiny
@@ -80,7 +82,7 @@ def pack_stage(work, res, tier, replay=None):
             res.violation(formula, key, [lines[ln]])
             if len(res.violations) > n0 and res.violations[-1][2]:
                 e = json.loads(lines[ln])
-                c = {k: e[k] for k in ("path", "buf", "labelLen", "enc", "vout", "crc", "comp", "member", "user", "fillUser")}
+                c = {k: e[k] for k in ("path", "buf", "labelLen", "enc", "vout", "vin", "crc", "comp", "member", "user", "fillUser")}
                 open(res.violations[-1][2] + ".case", "w").write(json.dumps(c) + "\n")
     classes = set()
     with open(trace) as fh:
